@@ -594,7 +594,8 @@ Section SEM.
   Definition qualify (a : string) (r : row) : row :=
     List.app r (map (fun kv => (String.append a (String.append "." (fst kv)), snd kv)) r).
 
-  Fixpoint ins_group (eqk : row -> row -> bool) (r : row) (gs : list (list row)) : list (list row) :=
+  (* grouping in first-occurrence order: a row joins the first group whose first row has the same key *)
+  Fixpoint ins_group {A} (eqk : A -> A -> bool) (r : A) (gs : list (list A)) : list (list A) :=
     match gs with
     | [] => [[r]]
     | g :: rest => match g with
@@ -602,7 +603,7 @@ Section SEM.
                    | [] => ins_group eqk r rest
                    end
     end.
-  Definition group_rows (eqk : row -> row -> bool) (rows : list row) : list (list row) :=
+  Definition group_rows {A} (eqk : A -> A -> bool) (rows : list A) : list (list A) :=
     fold_left (fun gs r => ins_group eqk r gs) rows [].
 
   (* aliases a query defines: SELECT e AS a, and groupBitOr(...) AS a written inside HAVING *)
